@@ -319,6 +319,28 @@ async fn exec(store: &Store, gate: &Arc<Gate>, kind: &str, op: &Value) -> Value 
                 Err(e) => json!({"err": classify_err(&e.to_string())}),
             }
         }
+        "burst" => {
+            // several writers appending at once: one thread per list, frames of a list in order
+            let mut joins = Vec::new();
+            for w in op["writers"].as_array().cloned().unwrap_or_default() {
+                let st = store.clone();
+                joins.push(std::thread::spawn(move || {
+                    let mut out = Vec::new();
+                    for fv in w.as_array().cloned().unwrap_or_default() {
+                        match frame_from_json(&fv) {
+                            Ok(f) => match st.append(f) {
+                                Ok(f) => out.push(frame_json(&f)),
+                                Err(e) => out.push(json!({"err": classify_err(&e.to_string())})),
+                            },
+                            Err(e) => out.push(json!({"err": format!("bad-op:{}", e)})),
+                        }
+                    }
+                    out
+                }));
+            }
+            let res: Vec<Value> = joins.into_iter().map(|j| json!(j.join().unwrap_or_default())).collect();
+            json!({"ok": res})
+        }
         "settle" => {
             // wait until the stream has been quiet for `ms` (at most `max_ms`)
             let quiet = std::time::Duration::from_millis(op["ms"].as_u64().unwrap_or(200));
